@@ -360,7 +360,7 @@ def r10c(ctx):
 R21A_UNUSED_OK = {
     ("_collection.FrameBase.__array__", "dtype"), ("_collection.Series.describe", "include"), ("_collection.Series.describe", "exclude"),
     ("_collection.Index.__array_wrap__", "context"), ("_concat.ConcatUnindexed.operation", "_kwargs"), ("_concat.ConcatUnindexed.operation", "axis"),
-    ("_concat.ConcatIndexed.operation", "_kwargs"), ("_expr._return_input", "divisions"), ("_expr.calc_divisions_for_align", "allow_shuffle"),
+    ("_expr._return_input", "divisions"), ("_expr.calc_divisions_for_align", "allow_shuffle"),
     ("_expr.RenameSeries.operation", "sorted_index"), ("_expr.MinType.__le__", "other"), ("_groupby._median_groupby_aggregate", "group_keys"),
     ("_groupby.Cov.combine", "levels"), ("_groupby.GroupByApply._shuffle_grp_func", "shuffled"), ("_groupby.Median._shuffle_grp_func", "shuffled"),
     ("_groupby.GroupBy.cov", "shuffle_method"), ("_groupby.GroupBy.corr", "shuffle_method"), ("_groupby.GroupBy.rolling", "axis"),
